@@ -8,6 +8,8 @@ mod state;
 pub mod stats;
 mod testing;
 pub mod tip_heights;
+#[cfg(melstf_verif)]
+pub mod verif_hooks;
 
 pub use crate::genesis::*;
 pub use crate::smtmapping::*;
